@@ -87,6 +87,10 @@ fn chunk() -> usize {
     [1usize, 7, 512, 4096, 65536, 100_000][sim::choose("chunk", 6)]
 }
 
+fn run_multi(cfg: simkernel::KConfig, body: Box<dyn FnOnce()>) -> Result<simkernel::EndState, sim::Violation> {
+    run_on_kernel_multi(cfg, body).map(|(end, _)| end)
+}
+
 fn child() -> RunResult {
     let cfg = simkernel::KConfig::draw();
     let (out_chunk, err_chunk, in_chunk) = (chunk(), chunk(), chunk());
@@ -96,9 +100,14 @@ fn child() -> RunResult {
     let end = if sim::flip("end.signal", 1, 4) { End::Signal([libc::SIGKILL, libc::SIGTERM, libc::SIGUSR1][sim::choose("end.sig", 3)]) } else { End::Exit([0, 1, 3, 42, 255][sim::choose("end.code", 5)]) };
     let wait = if sim::flip("wait.with_output", 1, 3) { Wait::WithOutput } else { Wait::At(sim::range("wait.at", 0, 400)) };
     let exit_at = 20 + sim::range("exit.at", 0, 300);
+    // like most real children: everything is written first (stalling while the pipes are full), the end comes
+    // afterwards; the parent has to drain stdout and stderr at the same time for that to happen at all
+    let write_all_first = matches!(wait, Wait::WithOutput) && sim::flip("child.writes.all.first", 1, 2);
+    // (then no more than some 300 steps per stream)
+    let child_write_burst = if write_all_first { child_write_burst.max(out_total.max(err_total) / 300 + 1) } else { child_write_burst };
     let close_before_exit = sim::flip("close.before.exit", 1, 2);
     let capacity = 1u32 << sim::range("ring.capacity.log2", 0, 4);
-    sim::log(|| format!("ring capacity {capacity}; stdout {out_total} bytes read in chunks of {out_chunk}, stderr {err_total}/{err_chunk}, stdin {in_total}/{in_chunk}; child writes in bursts of {child_write_burst}; ends with {end:?} at {exit_at} µs; parent waits {wait:?}; {cfg:?}"));
+    sim::log(|| format!("ring capacity {capacity}; stdout {out_total} bytes read in chunks of {out_chunk}, stderr {err_total}/{err_chunk}, stdin {in_total}/{in_chunk}; child writes in bursts of {child_write_burst}; ends with {end:?} at {exit_at} µs; parent waits {wait:?}{}; {cfg:?}", if write_all_first { " (the child ends only when it has written everything)" } else { "" }));
 
     let errs = Errs::default();
     let out_got: Rc<RefCell<Vec<u8>>> = Rc::default();
@@ -109,7 +118,11 @@ fn child() -> RunResult {
     let exit_commanded_ns: Rc<Cell<u64>> = Rc::new(Cell::new(u64::MAX));
     let in_sent: Rc<RefCell<Vec<u8>>> = Rc::default();
 
-    let end_state = run_on_kernel(cfg, {
+    // with the virtual pool of Engine K the wait job runs inline on the only thread, which cannot read the
+    // child's output meanwhile; a child that ends only after it has written everything needs the wait on a
+    // thread of its own: those runs are multi-threaded runs (Engine M)
+    let runner = if write_all_first { run_multi } else { run_on_kernel };
+    let end_state = runner(cfg, Box::new({
         let (errs, out_got, err_got, status, written, stdin_seen, exit_commanded_ns, in_sent) =
             (errs.clone(), out_got.clone(), err_got.clone(), status.clone(), written.clone(), stdin_seen.clone(), exit_commanded_ns.clone(), in_sent.clone());
         move || {
@@ -142,26 +155,65 @@ fn child() -> RunResult {
 
                 // ---- the child's script, as environment actions
                 let at = |us: u64| Duration::from_micros(us);
+                // (write_all_first) the end of the child is scheduled by the feed that finishes last
+                let feeds_left = Rc::new(Cell::new(2usize));
+                let the_end: Rc<RefCell<Option<Box<dyn FnOnce()>>>> = Rc::default();
+                let stalled: Rc<Cell<Option<(&'static str, usize)>>> = Rc::new(Cell::new(None));
+                let feed_patience = if write_all_first { None } else { Some(exit_at) };
                 let feed = |stream: usize, total: usize, label: &'static str| {
                     // the child writes what fits, in bursts, until everything is out; then (maybe) closes the stream
                     let (ctl, written) = (ctl.clone(), written.clone());
                     let left = Rc::new(Cell::new(total));
-                    fn step(stream: usize, label: &'static str, burst: usize, left: Rc<Cell<usize>>, ctl: Rc<RefCell<Ctl>>, written: Rc<RefCell<[usize; 3]>>, close_after: bool, deadline_us: u64, now_us: u64) {
+                    type Done = Rc<dyn Fn(Option<usize>)>;
+                    /// How long the child goes on trying: until an instant, or until 300 tries in a row got no byte out.
+                    #[derive(Clone, Copy)]
+                    enum Patience {
+                        Until(u64),
+                        Stalls(u32),
+                    }
+                    #[allow(clippy::too_many_arguments)]
+                    fn step(stream: usize, label: &'static str, burst: usize, left: Rc<Cell<usize>>, ctl: Rc<RefCell<Ctl>>, written: Rc<RefCell<[usize; 3]>>, close_after: bool, patience: Patience, now_us: u64, done: Done) {
                         let want = left.get().min(burst);
+                        let mut patience = patience;
                         if want > 0 {
-                            let done: usize = ctl.borrow_mut().cmd(&format!("{} {want}", if stream == 1 { "O" } else { "E" })).parse().unwrap_or(0);
-                            written.borrow_mut()[stream] += done;
-                            left.set(left.get() - done);
+                            let n: usize = ctl.borrow_mut().cmd(&format!("{} {want}", if stream == 1 { "O" } else { "E" })).parse().unwrap_or(0);
+                            written.borrow_mut()[stream] += n;
+                            left.set(left.get() - n);
+                            if let Patience::Stalls(idle) = patience {
+                                patience = Patience::Stalls(if n > 0 { 0 } else { idle + 1 });
+                            }
                         }
-                        if left.get() > 0 && now_us + 23 < deadline_us {
+                        let go_on = match patience {
+                            Patience::Until(t) => now_us + 23 < t,
+                            Patience::Stalls(idle) => idle < 300,
+                        };
+                        if left.get() > 0 && go_on {
                             let (l, c, w) = (left.clone(), ctl.clone(), written.clone());
-                            simkernel::at(Duration::from_micros(23), format!("the child goes on writing to its {label}"), move || step(stream, label, burst, l, c, w, close_after, deadline_us, now_us + 23));
-                        } else if close_after {
-                            ctl.borrow_mut().cmd(&format!("C {stream}"));
+                            simkernel::at(Duration::from_micros(23), format!("the child goes on writing to its {label}"), move || step(stream, label, burst, l, c, w, close_after, patience, now_us + 23, done));
+                        } else {
+                            if close_after {
+                                ctl.borrow_mut().cmd(&format!("C {stream}"));
+                            }
+                            done(if left.get() > 0 { Some(left.get()) } else { None });
                         }
                     }
-                    let close_after = close_before_exit;
-                    simkernel::at(at(1 + stream as u64), format!("the child starts writing {total} bytes to its {label}"), move || step(stream, label, child_write_burst, left, ctl, written, close_after, exit_at, 1 + stream as u64));
+                    let close_after = close_before_exit && !write_all_first;
+                    let (feeds_left, the_end, stalled) = (feeds_left.clone(), the_end.clone(), stalled.clone());
+                    let done: Done = Rc::new(move |unwritten: Option<usize>| {
+                        if !write_all_first {
+                            return;
+                        }
+                        if let Some(n) = unwritten {
+                            stalled.set(Some((label, n)));
+                        }
+                        feeds_left.set(feeds_left.get() - 1);
+                        if feeds_left.get() == 0 {
+                            if let Some(end) = the_end.borrow_mut().take() {
+                                simkernel::at(Duration::from_micros(5), "the child has written everything and ends".to_string(), end);
+                            }
+                        }
+                    });
+                    simkernel::at(at(1 + stream as u64), format!("the child starts writing {total} bytes to its {label}"), move || step(stream, label, child_write_burst, left, ctl, written, close_after, match feed_patience { Some(t) => Patience::Until(t), None => Patience::Stalls(0) }, 1 + stream as u64, done));
                 };
                 feed(1, out_total, "stdout");
                 feed(2, err_total, "stderr");
@@ -189,7 +241,7 @@ fn child() -> RunResult {
                 // the end
                 {
                     let (ctl, seen, cmd_ns) = (ctl.clone(), stdin_seen.clone(), exit_commanded_ns.clone());
-                    simkernel::at(at(exit_at), format!("the child ends: {end:?}"), move || {
+                    let ending = move || {
                         // a last look at stdin, so that what was delivered by then is accounted for
                         let r = ctl.borrow_mut().cmd("I 300000");
                         let f: Vec<i64> = r.split_whitespace().filter_map(|x| x.parse::<i64>().ok().or_else(|| x.parse::<u64>().ok().map(|v| v as i64))).collect();
@@ -208,7 +260,12 @@ fn child() -> RunResult {
                         let pid = CHILD_PID.with(|p| p.get());
                         let mut info: libc::siginfo_t = unsafe { std::mem::zeroed() };
                         unsafe { libc::waitid(libc::P_PID, pid as libc::id_t, &mut info, libc::WEXITED | libc::WNOWAIT) };
-                    });
+                    };
+                    if write_all_first {
+                        *the_end.borrow_mut() = Some(Box::new(ending));
+                    } else {
+                        simkernel::at(at(exit_at), format!("the child ends: {end:?}"), ending);
+                    }
                 }
                 CHILD_PID.with(|p| p.set(child.id()));
 
@@ -288,9 +345,12 @@ fn child() -> RunResult {
                     }
                 }
                 let _ = writer.await;
+                if let Some((label, n)) = stalled.get() {
+                    errs.push("child-stalled", format!("the parent was collecting the child's output (wait_with_output) and the child could not get rid of the last {n} bytes for its {label} although it tried 300 times over 7 ms of simulated time without getting a single byte out: its pipe stayed full, nobody was reading it"));
+                }
             });
         }
-    });
+    }));
     let end_state = end_state?;
     errs.first()?;
     // ---- the transcripts
